@@ -1169,6 +1169,68 @@ example : decide current (phaseGate current migWitnessG migWitnessC .config fals
     decide withMigrationRepair (phaseGate withMigrationRepair migWitnessG migWitnessC .migrated false) =
       .val (.refuse .renewDisabled) := by decide
 
+/-! # Part F2 — histories of store operations: standalone and linked deployments -/
+
+theorem foldl_applyOp_keeps_revoked (d : Deployment) (ops : List StoreOp) (st : Stores) (s : Nat)
+    (h : isRevokedAt d st s = true) : isRevokedAt d (ops.foldl (applyOp d) st) s = true := by
+  induction ops generalizing st with
+  | nil => exact h
+  | cons op ops ih =>
+    apply ih
+    cases d <;> cases op <;> simp_all [applyOp, isRevokedAt]
+    all_goals (try split) <;> simp_all
+
+/-- **revoked_stays_revoked**: in every deployment and every history of issuances, renewals and
+    revocations, a certificate whose revocation was recorded - whether the request presented the
+    certificate or only a token and the serial number - is reported revoked by the lookup the
+    renewal gate uses, from then on. -/
+theorem revoked_stays_revoked (d : Deployment) (before after : List StoreOp) (s : Nat) (c : Bool) :
+    isRevokedAt d (runOps d (before ++ .revoke s c :: after)) s = true := by
+  unfold runOps
+  rw [List.foldl_append, List.foldl_cons]
+  apply foldl_applyOp_keeps_revoked
+  cases d <;> simp [applyOp, isRevokedAt]
+
+/-- **revoked_history_refused**: … and renewal and rekey of it are refused, whatever the provisioner,
+    the claims, the validity window and the entry point. -/
+theorem revoked_history_refused (v : Variant) (d : Deployment) (before after : List StoreOp) (s : Nat) (c : Bool)
+    (loaded : String → Option Stored) (ext : ExtLookup) (nyv exp : Bool) :
+    decide v (gateAfter d (before ++ .revoke s c :: after) s loaded ext nyv exp) = .val (.refuse .revoked) := by
+  have h := revoked_stays_revoked d before after s c
+  simp [gateAfter, h, decide, authorizeRenew]
+
+/-- nothing is reported revoked that was never revoked -/
+theorem never_revoked_not_reported (d : Deployment) (ops : List StoreOp) (s : Nat)
+    (h : ∀ c, StoreOp.revoke s c ∉ ops) : isRevokedAt d (runOps d ops) s = false := by
+  unfold runOps
+  have gen : ∀ (st : Stores), isRevokedAt d st s = false →
+      isRevokedAt d (ops.foldl (applyOp d) st) s = false := by
+    induction ops with
+    | nil => intro st hs; exact hs
+    | cons op ops ih =>
+      intro st hs
+      apply ih (fun c hc => h c (List.mem_cons_of_mem _ hc))
+      cases op with
+      | issue a b => cases d <;> simpa [applyOp, isRevokedAt] using hs
+      | renewed a b =>
+        cases d <;> simp only [applyOp] <;> split <;> simpa [isRevokedAt] using hs
+      | revoke t c =>
+        have hne : t ≠ s := fun e => h c (by rw [e]; exact List.mem_cons_self)
+        cases d <;> simp_all [applyOp, isRevokedAt]
+        all_goals exact fun e => hne e.symm
+  exact gen _ (by cases d <;> rfl)
+
+/-- **record_follows_issue**: the provisioner recorded at issuance is what the renewal gate's
+    database lookup sees, in both deployments (writer and reader use the same store). -/
+theorem record_follows_issue (d : Deployment) (before : List StoreOp) (s : Nat) (p : String) :
+    recordAt d (runOps d (before ++ [.issue s p])) s = some p := by
+  unfold runOps
+  rw [List.foldl_append]
+  cases d <;> simp [applyOp, recordAt, lookupRecord]
+
+example : isRevokedAt .linked (runOps .linked [.issue 7 "p", .revoke 7 false]) 7 = true := by decide
+example : isRevokedAt .standalone (runOps .standalone [.issue 7 "p", .revoke 8 true]) 7 = false := by decide
+
 /-! # Part G — the source-derived tables and the model -/
 
 /-- the template literal copies exactly the fields the model's `Fields` stands for -/
@@ -1265,6 +1327,13 @@ theorem claims_flow_is_diagonal :
     "lit:DisableRenewal:disableRenewal" ∈ claimsToLinkedcaFlow ∧
     "lit:AllowRenewalAfterExpiry:allowRenewalAfterExpiry" ∈ claimsToLinkedcaFlow ∧
     claimsToCertificatesFlow.take 2 = ["DisableRenewal:&c.DisableRenewal", "AllowRenewalAfterExpiry:&c.AllowRenewalAfterExpiry"] := by
+  decide
+
+/-- in the regenerated routing tables every writer and reader asks the admin database first and
+    under no other condition than "it offers the operation" - the shape `applyOp`, `isRevokedAt`,
+    `recordAt` model (routing on the deployment only) -/
+theorem routing_is_unconditional :
+    ∀ e ∈ storeRouting, e.2.head? = some "adminDB?ok" ∧ ∀ c ∈ e.2, c = "adminDB?ok" ∨ c = "db?ok" := by
   decide
 
 /-- the two tables of provisioner types are disjoint -/
